@@ -119,15 +119,24 @@ class Driver:
                 return dict(rec, st="back_" + st, back=NOBITS, err=b)
             return dict(rec, st="ok", back=self.bits_of(b, dt))
 
-    def words(self, g, dt, x, tag, prec, wdt, fwd, back, unbounded, via_mpf=True):
-        """x -(float2mpf)-> mpf -fwd-> word list -back-> mpf -(mpf2float)-> float."""
+    def private_ctx(self, prec):
+        """a context of its own (as vectorize_with_mpmath creates them): nothing may depend on the global mpmath.mp instead"""
+        if getattr(self, "_priv", None) is None:
+            self._priv = self.mp.clone()
+        self._priv.prec = prec
+        return self._priv
+
+    def words(self, g, dt, x, tag, prec, wdt, fwd, back, unbounded, via_mpf=True, lb=0, fwd_only=False, private=False):
+        """x -(float2mpf)-> mpf -fwd-> word list -back-> mpf -(mpf2float)-> float.
+        private: the mpf objects live in a private context of precision prec while the GLOBAL context works at 8 bits."""
         name = dt.__name__
         wname = wdt.__name__
         base = dict(tag=tag, prec=prec, wfmt=wname, unbounded=unbounded, words=[], hasbm=False, bm=NOMPF,
-                    back=NOBITS)
-        with self.mp.workprec(prec):
+                    back=NOBITS, lb=lb)
+        mpc = self.private_ctx(prec) if private else self.mp
+        with self.mp.workprec(8 if private else prec):
             if via_mpf:
-                st, m = g.call(self.u.float2mpf, self.mp, x)
+                st, m = g.call(self.u.float2mpf, mpc, x)
                 if st != "ok":
                     return dict(base, st="fwd_" + st, err=m)
                 st, ws = g.call(fwd, wdt, m)
@@ -142,7 +151,9 @@ class Driver:
                 return dict(base, st="fwd_raised", err="result is not a list of %s: %r" % (wname, ex))
             if not ws and not via_mpf:
                 return dict(base, st="back_skipped_empty")
-            st, bm = g.call(back, self.mp, ws)
+            if fwd_only:
+                return dict(base, st="ok_fwd_only")
+            st, bm = g.call(back, mpc, ws)
             if st != "ok":
                 return dict(base, st="back_" + st, err=bm)
             base["hasbm"] = True
@@ -178,6 +189,17 @@ class Driver:
             wl.append(self.safe(self.words, g, dt, x, tag, prec, wdt,
                                 lambda d, m: u.mpf2expansion(d, m, **kw), u.expansion2mpf, unb))
 
+        def exb(tag, wdt, prec, lb, listform):
+            # the `base` convention (words scaled by base^i), asked for one value or - the other way to phrase it - a list of values
+            wl.append(self.safe(self.words, g, dt, x, tag, prec, wdt,
+                                (lambda d, m: u.mpf2expansion(d, [m], base=2 ** lb)[0]) if listform else
+                                (lambda d, m: u.mpf2expansion(d, m, base=2 ** lb)), None, True, lb=lb, fwd_only=True))
+
+        def expriv(tag, wdt, prec, **kw):
+            unb = kw.get("length") is None
+            wl.append(self.safe(self.words, g, dt, x, tag, prec, wdt,
+                                lambda d, m: u.mpf2expansion(d, m, **kw), u.expansion2mpf, unb, private=True))
+
         def mw(tag, prec, **kw):
             wl.append(self.safe(self.words, g, dt, x, tag, prec, dt,
                                 lambda d, m: u.mpf2multiword(d, m, **kw), u.multiword2mpf, True))
@@ -197,6 +219,7 @@ class Driver:
         extras = [
             lambda: ev["mpf"].append(self.safe(self.mpf, g, dt, x, "mpf/2p", 2 * tp)),
             lambda: ex("ex/len1", dt, tp, length=1),
+            lambda: expriv("expriv/default", dt, 2 * tp),
             lambda: ex("ex/fun3", dt, 2 * tp, length=3, functional=True),
             lambda: mw("mw/half", tp, p=half),
             lambda: mw("mw/half_ml2", 2 * tp, p=half, max_length=2),
@@ -215,6 +238,11 @@ class Driver:
                 if not abs(float(x)) <= float(numpy.finfo(bits.FLOAT[wn]).max):
                     continue
                 extras.append(lambda wn=wn: ex("exnarrow/" + wn, bits.FLOAT[wn], tp))
+                extras.append(lambda wn=wn: expriv("exprivnarrow/" + wn, bits.FLOAT[wn], 2 * tp))
+                if x != 0 and abs(float(x)) <= float(numpy.finfo(bits.FLOAT[wn]).max) / 64:
+                    extras.append(lambda wn=wn: exb("exbase2/" + wn, bits.FLOAT[wn], tp, 1, False))
+                    extras.append(lambda wn=wn: exb("exbase32list/" + wn, bits.FLOAT[wn], tp, 5, True))
+                    extras.append(lambda wn=wn: exb("exbase2list/" + wn, bits.FLOAT[wn], tp, 1, True))
                 extras.append(lambda wn=wn: f2e("f2enarrow/" + wn, bits.FLOAT[wn], tp))
                 extras.append(lambda wn=wn: f2epy("f2epynarrow/" + wn, bits.FLOAT[wn], tp))
         fb = tp - 1
